@@ -1,2 +1,54 @@
 #[allow(unused_imports)] use vstd::arithmetic::{div_mod::*, power2::*, mul::*};
 #[allow(unused_imports)] use vstd::bits::*;
+
+verus! {
+// ---------------------------------------------------------------- 128-bit chain interpreter over the abstract group (C15, layer 2)
+
+#[verifier::external_type_specification]
+#[verifier::external_body]
+pub struct ExCurve128(Curve);
+#[verifier::external_type_specification]
+#[verifier::external_body]
+pub struct ExPoint128(Point);
+#[verifier::external_type_specification]
+#[verifier::external_body]
+pub struct ExExtPoint128(ExtPoint);
+
+pub uninterp spec fn pelem128(c: &Curve, p: &Point) -> G;
+pub uninterp spec fn eelem128(c: &Curve, p: &ExtPoint) -> G;
+
+// Assumed contracts of the 128-bit point operations (polynomial identities of the formulas: algebra back end; group law: T-math)
+pub assume_specification [Curve::ext] (c: &Curve, p: &Point) -> (r: ExtPoint)
+    ensures eelem128(c, &r) == pelem128(c, p);
+pub assume_specification [ExtPoint::proj] (e: &ExtPoint) -> (r: Point)
+    ensures forall|c: &Curve| pelem128(c, &r) == eelem128(c, e);
+pub assume_specification [Curve::dblext] (c: &Curve, p: &Point) -> (r: ExtPoint)
+    ensures eelem128(c, &r) == gadd(pelem128(c, p), pelem128(c, p));
+pub assume_specification [Curve::double] (c: &Curve, p: &Point) -> (r: Point)
+    ensures pelem128(c, &r) == gadd(pelem128(c, p), pelem128(c, p));
+pub assume_specification [Curve::add] (c: &Curve, p: &ExtPoint, q: &ExtPoint) -> (r: ExtPoint)
+    ensures eelem128(c, &r) == gadd(eelem128(c, p), eelem128(c, q));
+/// 2P + Q
+pub assume_specification [Curve::dbladd] (c: &Curve, p: &Point, q: &ExtPoint) -> (r: Point)
+    ensures pelem128(c, &r) == gadd(gadd(pelem128(c, p), pelem128(c, p)), eelem128(c, q));
+
+/// R4 outlining of the neutral point `Point(M128(0), self.one, self.one)`; trusted contract
+#[verifier::external_body]
+fn ol_neutral128(c: &Curve) -> (r: Point)
+    ensures pelem128(c, &r) == gid()
+{
+    Point(M128(0), c.one, c.one)
+}
+
+/// R4 outlining of the in-place negation of a gap (X and T replaced by n - X, n - T on a clone: field updates of a
+/// tuple struct that stays opaque to Verus); trusted contract: the opposite point
+#[verifier::external_body]
+fn ol_neg_gap(c: &Curve, gap0: &ExtPoint) -> (gap: ExtPoint)
+    ensures eelem128(c, &gap) == gneg(eelem128(c, gap0))
+{
+    let mut gap = gap0.clone();
+    gap.0 = M128(c.n - gap.0 .0);
+    gap.3 = M128(c.n - gap.3 .0);
+    gap
+}
+} // verus!
